@@ -701,3 +701,545 @@ func extraC11Normaliser(c *Ctx, r *Report) {
 	addMutants(Mutant{Prop: "C11", Name: "normaliser-merges-vllm-mlx", File: "internal/app/handlers/handler_common.go", Rule: "C11-R5",
 		Old: "		return constants.ProviderTypeLMStudio\n", New: "		return constants.ProviderTypeLMStudio\n	case constants.ProviderPrefixVLLMMLX1, constants.ProviderPrefixVLLMMLX2:\n		return constants.ProviderTypeVLLM\n"})
 }
+
+// ---------- C20-R9: suffix slices are guarded by a sufficient length test ----------
+func init() {
+	registerExtra("C20", extraC20Wave2)
+	registerExtra("C17", extraC17Wave2)
+	registerExtra("C18", extraC18Wave2)
+	registerExtra("C19", extraC19Wave2)
+	registerExtra("C16", func(c *Ctx, r *Report) {
+		// the engines' own prefix strip must stay a no-op once the handlers have removed the route prefix (C01-R8):
+		// otherwise the path that reaches the backend is not "the request's remaining path"
+		r.WithAlias(map[string]string{"C01-R8": "C16-R6"}, func() { extraC01Prefix(c, r) })
+	})
+}
+
+func lenOf(v ssa.Value) ssa.Value {
+	if call, ok := v.(*ssa.Call); ok {
+		if bi, ok := call.Call.Value.(*ssa.Builtin); ok && bi.Name() == "len" && len(call.Call.Args) == 1 {
+			return call.Call.Args[0]
+		}
+	}
+	return nil
+}
+
+func extraC20Wave2(c *Ctx, r *Report) {
+	r.Rule("C20-R9", "a suffix/prefix slice x[len(x)-K:] (or x[:len(x)-K]) with constant K is control-dependent on a length test that proves len(x) >= K (the guard and the offset must agree: a digest shorter than the offset must not panic the catalogue update)", 3)
+	for _, f := range c.Funcs {
+		if !c.inRepo(f) {
+			continue
+		}
+		eachInstr(f, func(in ssa.Instruction) {
+			sl, ok := in.(*ssa.Slice)
+			if !ok {
+				return
+			}
+			for _, bound := range []ssa.Value{sl.Low, sl.High} {
+				bo, ok := bound.(*ssa.BinOp)
+				if !ok || bo.Op != token.SUB {
+					continue
+				}
+				base := lenOf(bo.X)
+				k, isK := constInt(bo.Y)
+				if base == nil || !isK || k <= 0 || base != sl.X {
+					continue
+				}
+				key := fmt.Sprintf("%s:slice(len-%d)", fname(f), k)
+				proved := false
+				for _, cf := range normFacts(condFacts(in.Block())) {
+					cb, ok := cf.Cond.(*ssa.BinOp)
+					if !ok {
+						continue
+					}
+					lx, ly := lenOf(cb.X), lenOf(cb.Y)
+					var n int64
+					op := cb.Op
+					switch {
+					case lx == base:
+						v, ok := constInt(cb.Y)
+						if !ok {
+							continue
+						}
+						n = v
+					case ly == base: // e OP len(x) → flip; e a constant, or a non-negative induction variable (counts as 0)
+						v, ok := constInt(cb.X)
+						if !ok {
+							if ph, isPhi := cb.X.(*ssa.Phi); isPhi && nonNegativeInduction(ph) {
+								v, ok = 0, true
+							}
+						}
+						if !ok {
+							continue
+						}
+						n = v
+						op = map[token.Token]token.Token{token.LSS: token.GTR, token.GTR: token.LSS, token.LEQ: token.GEQ, token.GEQ: token.LEQ, token.EQL: token.EQL, token.NEQ: token.NEQ}[op]
+					default:
+						continue
+					}
+					if !cf.True { // negate
+						op = map[token.Token]token.Token{token.LSS: token.GEQ, token.GEQ: token.LSS, token.GTR: token.LEQ, token.LEQ: token.GTR, token.EQL: token.NEQ, token.NEQ: token.EQL}[op]
+					}
+					switch op {
+					case token.GEQ:
+						proved = proved || n >= k
+					case token.GTR:
+						proved = proved || n >= k-1
+					case token.EQL:
+						proved = proved || n >= k
+					}
+				}
+				if proved {
+					r.OK("C20-R9", key, in.Pos(), "guarded by a sufficient length test")
+				} else {
+					r.Bad("C20-R9", key, in.Pos(), fmt.Sprintf("x[len(x)-%d] style slice is not protected by a test proving len(x) >= %d: a shorter value (e.g. a short digest in a backend listing) panics with slice bounds out of range", k, k))
+				}
+			}
+		})
+	}
+	addMutants(Mutant{Prop: "C20", Name: "digest-suffix-longer-than-guard", File: "internal/adapter/unifier/model_builder.go", Rule: "C20-R9",
+		Old: "digest[len(digest)-8:]", New: "digest[len(digest)-12:]"})
+
+	r.Rule("C20-R10", "the narrowing conversions in util.SafeFloat32 / util.SafeInt32 (float64→float32, int64→int32 of the parameter) are dominated by range tests against both the positive and the negative limit of the target type: a finite but out-of-range value cannot become ±Inf (or wrap) in ProviderMetrics", 2)
+	for _, name := range []string{"SafeFloat32", "SafeInt32"} {
+		f := c.Fn("internal/util", name)
+		if f == nil {
+			r.Unresolved("C20-R10", "util."+name)
+			continue
+		}
+		eachInstr(f, func(in ssa.Instruction) {
+			cv, ok := in.(*ssa.Convert)
+			if !ok || len(f.Params) == 0 || cv.X != ssa.Value(f.Params[0]) {
+				return
+			}
+			key := fname(f) + ":narrowing-conversion"
+			upper, lower := false, false
+			for _, cf := range normFacts(condFacts(in.Block())) {
+				cb, ok := cf.Cond.(*ssa.BinOp)
+				if !ok || cb.X != ssa.Value(f.Params[0]) || cf.True {
+					continue
+				}
+				if _, isK := cb.Y.(*ssa.Const); !isK {
+					continue
+				}
+				if cb.Op == token.GTR || cb.Op == token.GEQ {
+					upper = true
+				}
+				if cb.Op == token.LSS || cb.Op == token.LEQ {
+					lower = true
+				}
+			}
+			if upper && lower {
+				r.OK("C20-R10", key, in.Pos(), "conversion reached only when the value is within both limits")
+			} else {
+				r.Bad("C20-R10", key, in.Pos(), fmt.Sprintf("the narrowing conversion is reachable without a range test (upper=%v lower=%v): a finite float64 above MaxFloat32 becomes +Inf and the metrics no longer serialise", upper, lower))
+			}
+		})
+	}
+	addMutants(Mutant{Prop: "C20", Name: "safefloat-clamp-dropped", File: "internal/util/safe.go", Rule: "C20-R10",
+		Old: "	if value > math.MaxFloat32 {\n		return math.MaxFloat32\n	}\n", New: ""})
+}
+
+// ---------- C17-R5 / C17-R6 ----------
+func extraC17Wave2(c *Ctx, r *Report) {
+	r.Rule("C17-R5", "a per-client token bucket (rate.NewLimiter outside a constructor) is created inside the compute function of an atomic get-or-create on the limiter map (LoadOrCompute/LoadOrStore); a Load miss followed by Store lets concurrent first requests of one IP each obtain a fresh bucket and exceed burst + rate·t", 1)
+	for _, f := range c.Funcs {
+		if !strings.HasSuffix(fnPkgPath(f), "internal/adapter/security") {
+			continue
+		}
+		eachInstr(f, func(in ssa.Instruction) {
+			call, ok := in.(*ssa.Call)
+			if !ok {
+				return
+			}
+			ci := describeCall(&call.Call)
+			if ci.Name != "NewLimiter" || !strings.HasSuffix(ci.Pkg, "time/rate") {
+				return
+			}
+			// the global bucket: stored into a field of the validator by its constructor
+			if refs := call.Referrers(); refs != nil {
+				for _, ref := range *refs {
+					if st, ok := ref.(*ssa.Store); ok {
+						if _, isFA := st.Addr.(*ssa.FieldAddr); isFA && strings.HasPrefix(topParent(f).Name(), "New") {
+							return
+						}
+					}
+				}
+			}
+			key := fname(f) + ":per-client-bucket-creation"
+			atomicCreate := false
+			if p := f.Parent(); p != nil {
+				eachInstr(p, func(pi ssa.Instruction) {
+					cc := getCall(pi)
+					if cc == nil {
+						return
+					}
+					n := describeCall(cc).Name
+					if n != "LoadOrCompute" && n != "LoadOrStore" && n != "Compute" {
+						return
+					}
+					for _, a := range cc.Args {
+						if mc, ok := a.(*ssa.MakeClosure); ok && mc.Fn == ssa.Value(f) {
+							atomicCreate = true
+						}
+						if fn, ok := a.(*ssa.Function); ok && fn == f {
+							atomicCreate = true
+						}
+					}
+				})
+			}
+			if atomicCreate {
+				r.OK("C17-R5", key, in.Pos(), "bucket created inside the map's atomic get-or-create")
+			} else {
+				r.Bad("C17-R5", key, in.Pos(), "a per-client bucket is created outside an atomic get-or-create: two concurrent first requests from one IP can each publish their own bucket and both be admitted beyond the burst")
+			}
+		})
+	}
+	addMutants(Mutant{Prop: "C17", Name: "limiter-load-then-store", File: "internal/adapter/security/request_rate_limit.go", Rule: "C17-R5",
+		Old: "	limiterInfo, _ := rl.ipLimiters.LoadOrCompute(key, func() (newValue *ipLimiterInfo, cancel bool) {\n		now := time.Now()\n		return &ipLimiterInfo{", New: "	if li, ok := rl.ipLimiters.Load(key); ok {\n		return li\n	}\n	fresh := func() (newValue *ipLimiterInfo, cancel bool) {\n		now := time.Now()\n		return &ipLimiterInfo{",
+		Edits: []Edit{{"internal/adapter/security/request_rate_limit.go", "			requestLimit: limit,\n		}, false\n	})\n", "			requestLimit: limit,\n		}, false\n	}\n	limiterInfo, _ := fresh()\n	rl.ipLimiters.Store(key, limiterInfo)\n"}}})
+
+	r.Rule("C17-R6", "wrapping the request body in http.MaxBytesReader is never conditional on the request's ContentLength (a chunked body has ContentLength -1 and must be bounded all the same)", 1)
+	for _, f := range c.Funcs {
+		if !c.inRepo(f) {
+			continue
+		}
+		eachInstr(f, func(in ssa.Instruction) {
+			call, ok := in.(*ssa.Call)
+			if !ok {
+				return
+			}
+			ci := describeCall(&call.Call)
+			if ci.Pkg != "net/http" || ci.Name != "MaxBytesReader" {
+				return
+			}
+			key := fname(f) + ":MaxBytesReader"
+			bad := false
+			for _, cf := range condFacts(in.Block()) {
+				if mentionsFieldExpr(cf.Cond, "net/http", "Request", "ContentLength", 4) {
+					bad = true
+				}
+			}
+			if bad {
+				r.Bad("C17-R6", key, in.Pos(), "the body limit is applied only for some values of Content-Length: a chunked request (ContentLength == -1) is forwarded unbounded")
+			} else {
+				r.OK("C17-R6", key, in.Pos(), "limit reader applied independently of the declared length")
+			}
+		})
+	}
+	addMutants(Mutant{Prop: "C17", Name: "limit-reader-only-with-declared-length", File: "internal/adapter/security/request_size_limit.go", Rule: "C17-R6",
+		Old: "			if sv.maxBodySize > 0 {\n				r.Body = http.MaxBytesReader", New: "			if sv.maxBodySize > 0 && r.ContentLength > 0 {\n				r.Body = http.MaxBytesReader"})
+}
+
+func mentionsFieldExpr(v ssa.Value, pkg, typ, field string, d int) bool {
+	if v == nil || d == 0 {
+		return false
+	}
+	if ld, ok := v.(*ssa.UnOp); ok {
+		if isField(ld.X, pkg, typ, field) {
+			return true
+		}
+		return mentionsFieldExpr(ld.X, pkg, typ, field, d-1)
+	}
+	switch x := v.(type) {
+	case *ssa.BinOp:
+		return mentionsFieldExpr(x.X, pkg, typ, field, d-1) || mentionsFieldExpr(x.Y, pkg, typ, field, d-1)
+	case *ssa.Convert:
+		return mentionsFieldExpr(x.X, pkg, typ, field, d-1)
+	case *ssa.Phi:
+		for _, e := range x.Edges {
+			if mentionsFieldExpr(e, pkg, typ, field, d-1) {
+				return true
+			}
+		}
+	}
+	return false
+}
+
+// ---------- C18-R8 / C18-R9 ----------
+func extraC18Wave2(c *Ctx, r *Report) {
+	r.Rule("C18-R8", "the duration that arms the per-read stall timer of an engine that reads the backend body on a helper goroutine derives only from the configured read timeout (GetReadTimeout or its default constant), at every point of the response — never from the (much longer) response timeout: a backend that stalls right after its headers is cut off within the read timeout too", 1)
+	n := 0
+	for _, f := range c.Funcs {
+		if !strings.Contains(fnPkgPath(f), "/adapter/proxy/") || f.Parent() != nil {
+			continue
+		}
+		// the reader function: starts a goroutine that calls Read and arms time.NewTimer
+		readsOnGoroutine := false
+		for _, a := range f.AnonFuncs {
+			if invokesMethod(a, false, "Read") {
+				eachInstr(f, func(in ssa.Instruction) {
+					if g, ok := in.(*ssa.Go); ok {
+						if mc, ok := g.Call.Value.(*ssa.MakeClosure); ok && mc.Fn == ssa.Value(a) {
+							readsOnGoroutine = true
+						}
+					}
+				})
+			}
+		}
+		if !readsOnGoroutine {
+			continue
+		}
+		eachInstr(f, func(in ssa.Instruction) {
+			call, ok := in.(*ssa.Call)
+			if !ok {
+				return
+			}
+			ci := describeCall(&call.Call)
+			if ci.Pkg != "time" || (ci.Name != "NewTimer" && ci.Name != "After" && ci.Name != "AfterFunc") {
+				return
+			}
+			if _, isK := call.Call.Args[0].(*ssa.Const); isK {
+				return // fixed grace periods
+			}
+			n++
+			srcs := map[string]bool{}
+			durationSources(c, call.Call.Args[0], 6, srcs, map[ssa.Value]bool{})
+			key := fname(f) + ":stall-timer-duration"
+			var bad []string
+			for s := range srcs {
+				if !strings.Contains(s, "ReadTimeout") && !strings.HasPrefix(s, "const:") {
+					bad = append(bad, s)
+				}
+			}
+			if len(bad) > 0 {
+				r.Bad("C18-R8", key, in.Pos(), "the stall timer can be armed with a duration taken from "+strings.Join(bad, ", ")+": for that part of the response a stalled backend is not cut off within the read timeout")
+			} else if len(srcs) == 0 {
+				r.Undecided("C18-R8", key, in.Pos(), "could not trace where the stall timer's duration comes from")
+			} else {
+				r.OK("C18-R8", key, in.Pos(), "duration sources: "+strings.Join(sortedKeys(srcs), ", "))
+			}
+		})
+	}
+	if n == 0 {
+		r.Triv("C18-R8", "goroutine-body-readers", token.NoPos, "no engine arms a per-read timer around a goroutine reader")
+	}
+	addMutants(Mutant{Prop: "C18", Name: "first-read-uses-response-timeout", File: "internal/adapter/proxy/sherpa/service_streaming.go", Rule: "C18-R8",
+		Old: "		result, err := s.performTimedRead(combinedCtx, resp.Body, buffer, readTimeout, state, rlog)", New: "		rt := readTimeout\n		if state.readCount == 0 && s.configuration.GetResponseTimeout() > rt {\n			rt = s.configuration.GetResponseTimeout()\n		}\n		result, err := s.performTimedRead(combinedCtx, resp.Body, buffer, rt, state, rlog)"})
+
+	r.Rule("C18-R9", "the decision whether a response is relayed in streaming mode (flush per chunk) does not depend on the response's Content-Length: a declared length says nothing about how the backend paces the body", 1)
+	m := 0
+	for _, f := range c.Funcs {
+		if !strings.HasSuffix(fnPkgPath(f), pkgCore) || f.Parent() != nil {
+			continue
+		}
+		// the mode decision: a bool function of an *http.Response that inspects its Content-Type header
+		sig := f.Signature
+		if sig.Results().Len() != 1 || sig.Results().At(0).Type().String() != "bool" {
+			continue
+		}
+		hasResp := false
+		for i := 0; i < sig.Params().Len(); i++ {
+			if isNamed(sig.Params().At(i).Type(), "net/http", "Response") {
+				hasResp = true
+			}
+		}
+		if !hasResp {
+			continue
+		}
+		m++
+		key := fname(f) + ":mode-independent-of-content-length"
+		bad := false
+		eachInstr(f, func(in ssa.Instruction) {
+			if ld, ok := in.(*ssa.UnOp); ok && ld.Op == token.MUL && isField(ld.X, "net/http", "Response", "ContentLength") {
+				bad = true
+			}
+		})
+		if bad {
+			r.Bad("C18-R9", key, f.Pos(), "the streaming-mode decision reads resp.ContentLength: a body with a declared length that the backend sends piecewise is held back in the server's write buffer instead of being flushed per chunk")
+		} else {
+			r.OK("C18-R9", key, f.Pos(), "decision uses content type / profile only")
+		}
+	}
+	if m == 0 {
+		r.Unresolved("C18-R9", "core function deciding the streaming mode from an *http.Response")
+	}
+	addMutants(Mutant{Prop: "C18", Name: "content-length-disables-streaming", File: "internal/adapter/proxy/core/streaming.go", Rule: "C18-R9",
+		Old: "func AutoDetectStreamingMode(ctx context.Context, resp *http.Response, profile string) bool {\n", New: "func AutoDetectStreamingMode(ctx context.Context, resp *http.Response, profile string) bool {\n	if resp.ContentLength > 1<<20 {\n		return false\n	}\n"})
+}
+
+// durationSources collects where a duration value comes from: names of interface/static getter calls, constants,
+// following phis, arithmetic, builtin max/min, parameters (to every static caller) and local cells.
+func durationSources(c *Ctx, v ssa.Value, d int, out map[string]bool, seen map[ssa.Value]bool) {
+	if v == nil || d == 0 || seen[v] {
+		return
+	}
+	seen[v] = true
+	switch x := v.(type) {
+	case *ssa.Const:
+		out["const:"+x.String()] = true
+	case *ssa.Global:
+		out["const:"+x.Name()] = true
+	case *ssa.Phi:
+		for _, e := range x.Edges {
+			durationSources(c, e, d, out, seen)
+		}
+	case *ssa.BinOp:
+		durationSources(c, x.X, d, out, seen)
+		durationSources(c, x.Y, d, out, seen)
+	case *ssa.Convert:
+		durationSources(c, x.X, d, out, seen)
+	case *ssa.ChangeType:
+		durationSources(c, x.X, d, out, seen)
+	case *ssa.UnOp:
+		if al, ok := x.X.(*ssa.Alloc); ok && x.Op == token.MUL {
+			for _, s := range cellStores(al) {
+				durationSources(c, s, d, out, seen)
+			}
+			return
+		}
+		if _, fld, ok := fieldOf(x.X); ok {
+			out["field:"+fld.Name()] = true
+			return
+		}
+		durationSources(c, x.X, d, out, seen)
+	case *ssa.Call:
+		if bi, ok := x.Call.Value.(*ssa.Builtin); ok {
+			_ = bi
+			for _, a := range x.Call.Args {
+				durationSources(c, a, d, out, seen)
+			}
+			return
+		}
+		ci := describeCall(&x.Call)
+		if x.Call.IsInvoke() {
+			out["call:"+ci.Name] = true
+			return
+		}
+		if sc := x.Call.StaticCallee(); sc != nil && c.inRepo(sc) && sc.Blocks != nil {
+			// a repo helper: its returns
+			if strings.HasPrefix(sc.Name(), "Get") {
+				out["call:"+sc.Name()] = true
+				return
+			}
+			for _, ret := range returnsOf(sc) {
+				durationSources(c, retResult(ret, 0), d-1, out, seen)
+			}
+			return
+		}
+		out["call:"+ci.String()] = true
+	case *ssa.Parameter:
+		fn := x.Parent()
+		idx := -1
+		for i, p := range fn.Params {
+			if p == x {
+				idx = i
+			}
+		}
+		n := 0
+		for _, f := range c.Funcs {
+			eachInstr(f, func(in ssa.Instruction) {
+				if cc := getCall(in); cc != nil && cc.StaticCallee() == fn && idx < len(cc.Args) {
+					n++
+					durationSources(c, cc.Args[idx], d-1, out, seen)
+				}
+			})
+		}
+		if n == 0 {
+			out["param:"+x.Name()] = true
+		}
+	default:
+		out["other:"+v.String()] = true
+	}
+}
+
+// ---------- C19-R9 / C19-R10 ----------
+func extraC19Wave2(c *Ctx, r *Report) {
+	r.Rule("C19-R9", "the per-attempt functions (the workers behind core.ProxyFunc) are called only from their ProxyFunc wrappers, i.e. only through the retry handler's increment/defer-decrement bracket: a 'fast path' that calls the worker directly performs attempts the connection gauge never sees", 2)
+	impls := map[*ssa.Function]bool{}
+	for _, f := range proxyFuncImpls(c) {
+		impls[f] = true
+		// wrappers of wrappers (bound method → method)
+		cur := f
+		for i := 0; i < 4 && len(cur.Blocks) == 1; i++ {
+			var next *ssa.Function
+			k := 0
+			eachInstr(cur, func(in ssa.Instruction) {
+				if cc := getCall(in); cc != nil {
+					if sc := cc.StaticCallee(); sc != nil && c.inRepo(sc) {
+						next = sc
+						k++
+					}
+				}
+			})
+			if k != 1 {
+				break
+			}
+			impls[cur] = true
+			cur = next
+		}
+	}
+	for _, af := range attemptFuncs(c) {
+		delete(impls, af)
+	}
+	for _, af := range attemptFuncs(c) {
+		key := fname(af) + ":called-only-through-bracket"
+		var bad ssa.Instruction
+		n := 0
+		for _, f := range c.Funcs {
+			eachInstr(f, func(in ssa.Instruction) {
+				if cc := getCall(in); cc != nil && cc.StaticCallee() == af {
+					n++
+					if !impls[f] && !impls[topParent(f)] {
+						bad = in
+					}
+				}
+			})
+		}
+		switch {
+		case bad != nil:
+			r.Bad("C19-R9", key, bad.Pos(), "the attempt worker is called directly, outside the ProxyFunc the retry handler runs between IncrementConnections and the deferred DecrementConnections: these attempts are invisible to the active-connection gauge (and to least-connections routing)")
+		case n == 0:
+			r.Undecided("C19-R9", key, af.Pos(), "no call site of the attempt worker found")
+		default:
+			r.OK("C19-R9", key, af.Pos(), fmt.Sprintf("%d call site(s), all inside ProxyFunc wrappers", n))
+		}
+	}
+	addMutants(Mutant{Prop: "C19", Name: "single-endpoint-fast-path", File: "internal/adapter/proxy/sherpa/service_retry.go", Rule: "C19-R9",
+		Old: "	// Delegate to retry handler with endpoint-specific proxy function\n", New: "	if len(endpoints) == 1 {\n		return s.proxyToSingleEndpoint(ctx, w, r, endpoints[0], stats, rlog)\n	}\n	// Delegate to retry handler with endpoint-specific proxy function\n"})
+
+	r.Rule("C19-R10", "BaseProxyComponents.RecordSuccess / RecordFailure update the engine counter on every path from entry to return (no outcome is filtered out before it is counted): total = successes + failures needs every recorded attempt to land in exactly one of them", 2)
+	for _, name := range []string{"RecordSuccess", "RecordFailure"} {
+		f := c.Fn(pkgCore, "(*BaseProxyComponents)."+name)
+		if f == nil {
+			r.Unresolved("C19-R10", "core.(*BaseProxyComponents)."+name)
+			continue
+		}
+		key := fname(f) + ":counts-on-every-path"
+		isCount := func(in ssa.Instruction) bool {
+			cc := getCall(in)
+			if cc == nil {
+				return false
+			}
+			sc := cc.StaticCallee()
+			return sc != nil && sc.Name() == name && sc.Signature.Recv() != nil && isNamed(sc.Signature.Recv().Type(), pkgCore, "ProxyStats")
+		}
+		if ret := reachReturnAvoiding(f, isCount, nil); ret != nil {
+			r.Bad("C19-R10", key, f.Pos(), "an outcome can be dropped before it is counted (early return ahead of ProxyStats."+name+"): the engine's total then exceeds successes + failures and the collector never sees the attempt")
+		} else {
+			r.OK("C19-R10", key, f.Pos(), "every path counts the outcome")
+		}
+	}
+	addMutants(Mutant{Prop: "C19", Name: "cancelled-failures-not-counted", File: "internal/adapter/proxy/core/base.go", Rule: "C19-R10",
+		Old: "	b.Stats.RecordFailure()\n", New: "	if err == context.Canceled {\n		return\n	}\n	b.Stats.RecordFailure()\n"})
+}
+
+// nonNegativeInduction: a loop counter that starts at a constant >= 0 and is only ever incremented.
+func nonNegativeInduction(p *ssa.Phi) bool {
+	for _, e := range p.Edges {
+		if k, ok := constInt(e); ok {
+			if k < 0 {
+				return false
+			}
+			continue
+		}
+		bo, ok := e.(*ssa.BinOp)
+		if !ok || bo.Op != token.ADD || bo.X != ssa.Value(p) {
+			return false
+		}
+		if k, ok := constInt(bo.Y); !ok || k < 0 {
+			return false
+		}
+	}
+	return len(p.Edges) > 0
+}
